@@ -69,7 +69,7 @@ func decodeCanon(input []byte) (hdrErr bool, rootsStr string, blocksStr string, 
 	return false, strings.Join(rs, ","), strings.Join(bs, ",") + "|" + end, iterErr, oracle
 }
 
-func token(input []byte) (string, bool, string) {
+func carToken(input []byte) (string, bool, string) {
 	hdrErr, r, b, iterErr, oracle := decodeCanon(input)
 	if hdrErr {
 		return "E", true, oracle
@@ -301,7 +301,7 @@ func execCarTrunc(a []string) Result {
 	var toks []string
 	oracle := "ok"
 	for n := 0; n < len(enc); n++ {
-		t, iterErr, o := token(enc[:n])
+		t, iterErr, o := carToken(enc[:n])
 		toks = append(toks, t)
 		if o != "" && oracle == "ok" {
 			oracle = fmt.Sprintf("%s (archive truncated to %d of %d bytes)", o, n, len(enc))
@@ -325,7 +325,7 @@ func execCarFlip(a []string) Result {
 	for i := 0; i < len(enc); i++ {
 		m := append([]byte{}, enc...)
 		m[i] ^= mask
-		t, _, o := token(m)
+		t, _, o := carToken(m)
 		toks = append(toks, t)
 		if o != "" && oracle == "ok" {
 			oracle = fmt.Sprintf("%s (byte %d xor %02x)", o, i, mask)
@@ -335,7 +335,7 @@ func execCarFlip(a []string) Result {
 }
 
 func execCarDec(a []string) Result {
-	t, _, o := token(unhexTok(a[0]))
+	t, _, o := carToken(unhexTok(a[0]))
 	if o == "" {
 		o = "ok"
 	}
